@@ -1,12 +1,11 @@
 CONSTANTS
   Dev = {}
   RD = 2
-  MaxRetries = 2
+  MaxRetries = 1
   MaxDgrams = 3
-  MaxOps = 14
-  PathMode = FALSE
+  MaxOps = 8
+  PathMode = TRUE
   Faults <- GFaults
 SPECIFICATION GenSpec
-VIEW GenView
-ACTION_CONSTRAINT EmitTransition
+ACTION_CONSTRAINT EmitPaths
 CHECK_DEADLOCK FALSE
